@@ -17,7 +17,6 @@ func init() {
 	natives["time.Now"] = natTimeNow
 	natives["time.Since"] = natTimeSince
 	natives["time.Until"] = natTimeUntil
-	natives["time.Sleep"] = natNop
 }
 
 func natTimeNow(fr *frame, fn *ssa.Function, args []value) value {
